@@ -653,7 +653,7 @@ func runC12(w *World) *Result {
 	r.Rule("R-C12-drop", "SPACE/COMMENT never appended; CRLF normalised before the loop", 2)
 	r.Rule("R-C12-pos", "Token.Row/Column results reach only error constructors", 2)
 	r.Rule("R-C12-nl", "after each required NEWLINE the next token decision accepts NEWLINE", 3)
-	r.Rule("R-C12-sign", "probes overlapping punctuation are conditioned on the previous token", 1)
+	r.Rule("R-C12-sign", "probes overlapping punctuation are conditioned on the previous token, and the conditioning set holds every token type that can end an integer operand", 2)
 	lf, err := BuildLexFacts(w)
 	if err != nil {
 		r.Bad("R-C12-drop", "lexer:facts", "-", err.Error())
@@ -746,69 +746,7 @@ func runC12(w *World) *Result {
 	}
 	c12Pos(w, r)
 	c12Newlines(w, r)
-	// --- sign
-	punctFirst := map[byte]bool{}
-	for _, e := range lf.Punct {
-		if len(e.Value) > 0 {
-			punctFirst[e.Value[0]] = true
-		}
-	}
-	arms := []lexArm{}
-	if loop != nil {
-		arms = probeArms(loop)
-	}
-	for _, re := range lf.Regexes {
-		if re.Tree == nil || !re.OnRest {
-			continue
-		}
-		fr, _, ok := firstRunes(re.Tree)
-		if !ok {
-			continue
-		}
-		var overlap []string
-		for c := range punctFirst {
-			if c == '/' || c == '"' {
-				continue // comment openers are distinct lexemes by design (// and /* … */)
-			}
-			if rangesContain(fr, rune(c)) && len(fr) < 40 {
-				overlap = append(overlap, string(c))
-			}
-		}
-		if len(overlap) == 0 {
-			continue
-		}
-		sort.Strings(overlap)
-		key := fmt.Sprintf("sign:%q", re.Pattern)
-		// the arm's condition must look at the tokens produced so far
-		conditioned := false
-		for _, arm := range arms {
-			if (arm.Init != nil && within(arm.Init, re.Pos)) || within(arm.Cond, re.Pos) {
-				conditioned = containsNode(arm.Cond, func(n ast.Node) bool {
-					id, ok := n.(*ast.Ident)
-					if !ok {
-						return false
-					}
-					o := info.Uses[id]
-					return o != nil && strings.HasSuffix(o.Type().String(), "[]"+pkg.Types.Path()+".Token")
-				})
-				if !conditioned && arm.Init != nil {
-					conditioned = containsNode(arm.Init, func(n ast.Node) bool {
-						id, ok := n.(*ast.Ident)
-						if !ok {
-							return false
-						}
-						o := info.Uses[id]
-						return o != nil && strings.HasSuffix(o.Type().String(), "[]"+pkg.Types.Path()+".Token")
-					})
-				}
-			}
-		}
-		if conditioned {
-			r.Ok("R-C12-sign", key, w.Pos(re.Pos), "probe starting with "+strings.Join(overlap, ",")+" is conditioned on the previous token")
-		} else {
-			r.Bad("R-C12-sign", key, w.Pos(re.Pos), "probe "+fmt.Sprintf("%q", re.Pattern)+" can start with "+strings.Join(overlap, ",")+" which is also punctuation, and is tried regardless of the previous token: a-1 lexes as a, -1 (rejected) while a - 1 lexes as a, -, 1 — acceptance depends on blanks")
-		}
-	}
+	SignRule(w, r, "R-C12-sign")
 	return r
 }
 
@@ -1443,6 +1381,148 @@ func posSources(w *World, lf *LexFacts, info *types.Info, loop *ast.ForStmt, arm
 			r.Ok("R-C11-pos", key, w.Pos(arm.Pos), fmt.Sprintf("%d position updates, all computed from the consumed source text", n))
 		} else {
 			r.Bad("R-C11-pos", key, w.Pos(arm.Pos), strings.Join(uniq(bad), "; ")+": rows and columns of later tokens follow the decoded value instead of the source (an escaped \\n counts as a line break, a literal one inside the token may not)")
+		}
+	}
+}
+
+// SignRule: probes that can start with a character that is also punctuation (the minus of a
+// negative literal) are conditioned on the previous token, and the conditioning set holds
+// every token type that can end an integer operand.
+func SignRule(w *World, r *Result, rule string) {
+	lf, err := BuildLexFacts(w)
+	if err != nil {
+		r.Bad(rule, "sign:facts", "-", err.Error())
+		return
+	}
+	pkg := w.Pkgs["lexer"]
+	info := pkg.TypesInfo
+	loop := mainLoop(lf.Tokenize)
+	// --- sign
+	punctFirst := map[byte]bool{}
+	for _, e := range lf.Punct {
+		if len(e.Value) > 0 {
+			punctFirst[e.Value[0]] = true
+		}
+	}
+	arms := []lexArm{}
+	if loop != nil {
+		arms = probeArms(loop)
+	}
+	for _, re := range lf.Regexes {
+		if re.Tree == nil || !re.OnRest {
+			continue
+		}
+		fr, _, ok := firstRunes(re.Tree)
+		if !ok {
+			continue
+		}
+		var overlap []string
+		for c := range punctFirst {
+			if c == '/' || c == '"' {
+				continue // comment openers are distinct lexemes by design (// and /* … */)
+			}
+			if rangesContain(fr, rune(c)) && len(fr) < 40 {
+				overlap = append(overlap, string(c))
+			}
+		}
+		if len(overlap) == 0 {
+			continue
+		}
+		sort.Strings(overlap)
+		key := fmt.Sprintf("sign:%q", re.Pattern)
+		// the arm's condition must look at the tokens produced so far
+		conditioned := false
+		for _, arm := range arms {
+			if (arm.Init != nil && within(arm.Init, re.Pos)) || within(arm.Cond, re.Pos) {
+				conditioned = containsNode(arm.Cond, func(n ast.Node) bool {
+					id, ok := n.(*ast.Ident)
+					if !ok {
+						return false
+					}
+					o := info.Uses[id]
+					return o != nil && strings.HasSuffix(o.Type().String(), "[]"+pkg.Types.Path()+".Token")
+				})
+				if !conditioned && arm.Init != nil {
+					conditioned = containsNode(arm.Init, func(n ast.Node) bool {
+						id, ok := n.(*ast.Ident)
+						if !ok {
+							return false
+						}
+						o := info.Uses[id]
+						return o != nil && strings.HasSuffix(o.Type().String(), "[]"+pkg.Types.Path()+".Token")
+					})
+				}
+			}
+		}
+		if conditioned {
+			// which previous tokens make the sign an operator: every token type that can end an
+			// integer operand must be among them (table with the reason for each entry)
+			needed := [][2]string{
+				{"IDENTIFIER", "a-1: a variable ends the left operand"},
+				{"NUMBER_LITERAL", "2-1: a literal ends the left operand"},
+				{"CLOSING_ROUND_BRACKET", "(a+b)-1 and f(x)-1: a group or a call ends the left operand"},
+				{"CLOSING_SQUARE_BRACKET", "s[i]-1: a subscript ends the left operand"},
+			}
+			found := map[string]bool{}
+			collect := func(n ast.Node) {
+				ast.Inspect(n, func(n ast.Node) bool {
+					if id, ok := n.(*ast.Ident); ok {
+						if c, ok := info.Uses[id].(*types.Const); ok {
+							if _, isTok := lf.TokenTypes[c.Name()]; isTok {
+								found[c.Name()] = true
+							}
+						}
+					}
+					return true
+				})
+			}
+			for _, arm := range arms {
+				if (arm.Init != nil && within(arm.Init, re.Pos)) || within(arm.Cond, re.Pos) {
+					for _, root := range []ast.Node{arm.Init, arm.Cond} {
+						if root == nil || (root == arm.Init && arm.Init == nil) {
+							continue
+						}
+						collect(root)
+						ast.Inspect(root, func(n ast.Node) bool {
+							call, ok := n.(*ast.CallExpr)
+							if !ok {
+								return true
+							}
+							if o := calleeObj(info, call); o != nil && o.Pkg() == pkg.Types {
+								for _, f := range pkg.Syntax {
+									for _, d := range f.Decls {
+										if fd, ok := d.(*ast.FuncDecl); ok && info.Defs[fd.Name] == o && fd.Body != nil {
+											collect(fd.Body)
+										}
+									}
+								}
+							}
+							return true
+						})
+					}
+				}
+			}
+			var missing []string
+			for _, nd := range needed {
+				if _, exists := lf.TokenTypes[nd[0]]; !exists {
+					missing = append(missing, nd[0]+" (no such token type in the lexer)")
+				} else if !found[nd[0]] {
+					missing = append(missing, nd[0]+" ("+nd[1]+")")
+				}
+			}
+			if len(missing) > 0 {
+				r.Bad(rule, key+":operand-enders", w.Pos(re.Pos), "the previous-token test that turns the sign into an operator does not list "+strings.Join(missing, ", ")+": after such a token the sign is glued to the literal and a well-typed expression is rejected depending on blanks")
+			} else {
+				var fs []string
+				for f := range found {
+					fs = append(fs, f)
+				}
+				sort.Strings(fs)
+				r.Ok(rule, key+":operand-enders", w.Pos(re.Pos), "previous-token set "+strings.Join(fs, ",")+" contains every token type that can end an integer operand")
+			}
+			r.Ok(rule, key, w.Pos(re.Pos), "probe starting with "+strings.Join(overlap, ",")+" is conditioned on the previous token")
+		} else {
+			r.Bad(rule, key, w.Pos(re.Pos), "probe "+fmt.Sprintf("%q", re.Pattern)+" can start with "+strings.Join(overlap, ",")+" which is also punctuation, and is tried regardless of the previous token: a-1 lexes as a, -1 (rejected) while a - 1 lexes as a, -, 1 — acceptance depends on blanks")
 		}
 	}
 }
